@@ -154,11 +154,21 @@ class SetEncoder(encoder.SequenceEncoder):
 
         if asn1Spec.typeId == univ.Choice.typeId and not asn1Spec.tagSet:
             if asn1Spec.tagSet:
-                return asn1Spec.tagSet
+                return SetEncoder._tagSortKey(asn1Spec.tagSet)
             else:
-                return asn1Spec.componentType.minTagSet
+                return SetEncoder._tagSortKey(asn1Spec.componentType.minTagSet)
         else:
-            return asn1Spec.tagSet
+            return SetEncoder._tagSortKey(asn1Spec.tagSet)
+
+    @staticmethod
+    def _tagSortKey(tagSet):
+        """Canonical tag order (X.680 8.6) of the outermost tag: class, then number"""
+        if not tagSet:
+            # untagged type (nested CHOICE): no tag to order by
+            return ()
+
+        outermostTag = tagSet.superTags[-1]
+        return outermostTag.tagClass, outermostTag.tagId
 
     def encodeValue(self, value, asn1Spec, encodeFun, **options):
 
